@@ -375,7 +375,7 @@ impl Prop for C16 {
                 if *c > 1 && s.trace.bytes.len() > 2000 {
                     continue;
                 }
-                if *c > 2 {
+                if *c > (if s.trace.bytes.len() < 200 { 20 } else { 2 }) {
                     continue;
                 }
                 let big = s.trace.bytes.len() > 4000;
